@@ -94,6 +94,12 @@ where S: DataMut<Elem = i64>, D: Dimension + RemoveAxis {
     out.push(("quantiles_axis_mut_lower", "exact", flat(mk().quantiles_axis_mut(Axis(axis), &qs, &Lower))));
     out.push(("quantiles_axis_mut_linear", "exact", flat(mk().quantiles_axis_mut(Axis(axis), &qs, &Linear))));
     out.push(("quantile_axis_mut_nearest", "exact", flats(mk().quantile_axis_mut(Axis(axis), n64(0.62), &Nearest))));
+    // an invalid request list, here handed over as a reversed view of a buffer holding it back to front: the reported
+    // offending quantile is the first one in logical order whatever the representation of data or request
+    let back = array![n64(-0.5), n64(1.5), n64(0.25)];
+    let rq = back.slice(ndarray::s![..;-1]);
+    out.push(("quantiles_axis_mut_invalid_request", "exact", match mk().quantiles_axis_mut(Axis(axis), &rq, &Lower) {
+        Err(ndarray_stats::errors::QuantileError::InvalidQuantile(q)) => vec![(q.raw() * 4.0) as i64], Err(_) => vec![-1], Ok(_) => vec![100] }));
     verif_hooks::take_log();
 }
 
@@ -244,6 +250,9 @@ pub fn run(case: &Value, _params: &Params, out: &mut Vec<Value>) {
                     { let mut p = l.build(&xi, |_| 77); items.push(("quantiles_axis_mut_lower", "exact", fl(l.view_mut(&mut p).quantiles_axis_mut(Axis(axis), &qs, &Lower)))); }
                     { let mut p = l.build(&xi, |_| 77); items.push(("quantiles_axis_mut_linear", "exact", fl(l.view_mut(&mut p).quantiles_axis_mut(Axis(axis), &qs, &Linear)))); }
                     { let mut p = l.build(&xi, |_| 77); items.push(("quantile_axis_mut_nearest", "exact", fl(l.view_mut(&mut p).quantile_axis_mut(Axis(axis), n64(0.62), &Nearest)))); }
+                    { let mut p = l.build(&xi, |_| 77); let rq = array![n64(0.25), n64(1.5), n64(-0.5)];
+                      items.push(("quantiles_axis_mut_invalid_request", "exact", match l.view_mut(&mut p).quantiles_axis_mut(Axis(axis), &rq, &Lower) {
+                          Err(ndarray_stats::errors::QuantileError::InvalidQuantile(q)) => vec![(q.raw() * 4.0) as i64], Err(_) => vec![-1], Ok(_) => vec![100] })); }
                     { let mut p = l.build(&xf, |_| 9.75); let r = l.view_mut(&mut p).quantile_axis_skipnan_mut(Axis(axis), n64(0.5), &Lower);
                       items.push(("quantile_axis_skipnan_mut", "exact", match r { Ok(v) => v.iter().map(|&t| qf(t)).collect(), Err(_) => vec![-1] })); }
                     { let mut p = l.build(&xf, |_| 9.75); let mut v = l.view_mut(&mut p);
